@@ -3,6 +3,8 @@
 
 package pubsub
 
+import "github.com/StephenButtolph/canoto"
+
 //go:generate go run github.com/StephenButtolph/canoto/canoto $GOFILE
 
 type BatchMessage struct {
@@ -14,6 +16,12 @@ type BatchMessage struct {
 func CreateBatchMessage(msgs [][]byte) []byte {
 	batchMessage := BatchMessage{Messages: msgs}
 	return batchMessage.MarshalCanoto()
+}
+
+// batchedMessageSize returns the number of bytes [msg] occupies in an encoded
+// BatchMessage (field tag + length prefix + payload).
+func batchedMessageSize(msg []byte) int {
+	return len(canoto__BatchMessage__Messages__tag) + int(canoto.SizeBytes(msg))
 }
 
 func ParseBatchMessage(msg []byte) ([][]byte, error) {
